@@ -119,6 +119,16 @@ def gen_concurrent_case(rng: random.Random, tier: str, backends=('dict',),
             if rng.random() < 0.3:
                 act['chunk_seed'] = rng.getrandbits(32)
             acts.append(act)
+        if backend == 'maildir' and rng.random() < 0.15:
+            # the delivery agent drops a message behind the server's back
+            tok = tokens.take()
+            acts.append({'kind': 'deliver', 'mailbox': 'INBOX',
+                         'data': common.make_message(tok), 'token': tok,
+                         'subdir': rng.choice(['new', 'new', 'cur']),
+                         'info': rng.choice(['', '', 'S', 'FS']),
+                         'at': rng.choice([0, rng.randint(1, 80)])})
+            hi += 1
+            maxn += 1
         if acts:
             steps.append({'actions': acts, 'sched_seed': maybe_seed(rng)})
     # wind down: release holds, end idles, NOOP everywhere
